@@ -696,3 +696,43 @@ def G1_no_swallowed_errors(repo, clause, modules=("mofun.atoms", "mofun.mofun", 
     obs.append(Ob("G1", clause, repo.fn("replace_pattern_in_structure"), repo.fn("replace_pattern_in_structure").node, True,
                   "%d exception handlers in the library modules inspected" % n, construct="try/except inventory", slot="inventory"))
     return obs
+
+
+def B7_terms_types_coeffs_together(repo, clause, funcs=("assign_bond_types", "assign_angle_types", "assign_dihedral_types")):
+    """The three attributes of a kind of term (`<k>s`, `<k>_types`, `<k>_type_coeffs`) describe one thing.  A function that re-assigns the term list of its Atoms argument
+    (after the exclusion filter, after dropping zero-strength dihedrals) must, on EVERY path from that store to a normal return, also store the per-term types and the
+    coefficient table computed from the new list; an early `return` in between leaves the old types / coefficients of the unfiltered list in place (path rule on the
+    statement CFG: must-pass-through)."""
+    obs = []
+    n = 0
+    for q in funcs:
+        fn = repo.fn(q)
+        stores = {}
+        for st in fn.own_nodes():
+            tg = []
+            if isinstance(st, ast.Assign):
+                tg = st.targets
+            elif isinstance(st, ast.AugAssign):
+                tg = [st.target]
+            for t in tg:
+                if isinstance(t, ast.Attribute) and isinstance(t.value, ast.Name) and t.value.id in fn.params:
+                    stores.setdefault((t.value.id, t.attr), []).append(st)
+        for (obj, attr), sts in sorted(stores.items()):
+            m = re.fullmatch(r"(bond|angle|dihedral|improper)s", attr)
+            if not m:
+                continue
+            k = m.group(1)
+            for need in ("%s_types" % k, "%s_type_coeffs" % k):
+                via = stores.get((obj, need), [])
+                for st in sts:
+                    n += 1
+                    if not via:
+                        obs.append(Ob("B7", clause, fn, st, False, "%s re-assigns %s.%s but never stores %s.%s" % (q, obj, attr, obj, need), slot="together:%s:%s" % (q, need)))
+                        continue
+                    ok = fn.cfg.must_pass(st, via, fn.cfg.EXIT)
+                    obs.append(Ob("B7", clause, fn, st, ok,
+                                  "every normal return of %s after `%s` passes a store of %s.%s%s" % (
+                                      q, ast.unparse(st)[:50], obj, need, "" if ok else ": NO - a return in between leaves the types / coefficients of the OLD term list in place"),
+                                  slot="together:%s:%s:%s" % (q, need, ast.unparse(st)[:30]), positive="robust"))
+    floor("B7", "term-list stores followed to the exits", n, 6)
+    return obs
